@@ -96,7 +96,12 @@ class TLCResult:
 def _stage_spec(ctx, spec_dir, tag):
     """copy the module directory and specs/common into a scratch directory (TLC litters)."""
     dst = ctx.sub("tlc-%s-%d" % (tag, len(ctx.cov["tlc_runs"])))
-    for src in (os.path.join(VERIF, "specs", "common"), spec_dir):
+    srcs = [os.path.join(VERIF, "specs", "common")]
+    depf = os.path.join(spec_dir, "DEPS")
+    if os.path.exists(depf):
+        srcs += [os.path.join(VERIF, "specs", x.strip()) for x in open(depf) if x.strip()]
+    srcs.append(spec_dir)
+    for src in srcs:
         for f in os.listdir(src):
             if f.endswith((".tla", ".cfg")):
                 shutil.copy(os.path.join(src, f), dst)
@@ -444,7 +449,7 @@ def report_violation(ctx, key, what, replay_obj):
     return True
 
 
-def finish(ctx, level="model_checking"):
+def finish(ctx, level="model_checking", inconclusive=False):
     cov = ctx.cov
     cov["explanation"] = "; ".join(ctx.notes) if ctx.notes else cov.get("explanation", "")
     if not cov["samples"]:
@@ -466,7 +471,7 @@ def finish(ctx, level="model_checking"):
     if cov.get("nonconformance"):
         log("NONCONFORMANCE count=%d (implementation left the modelled envelope; property predicates held on real state)" % cov["nonconformance"])
     log("%s %s tier=%s seed=%d states=%d traces=%d evaluations=%d wall=%.1fs" % (
-        "FAIL" if ctx.violations else "PASS", ctx.pid, ctx.tier, ctx.seed, cov["states"],
+        "FAIL" if ctx.violations else ("INCONCLUSIVE" if inconclusive else "PASS"), ctx.pid, ctx.tier, ctx.seed, cov["states"],
         cov["traces_validated_against_impl"], cov["evaluations"], time.time() - ctx.t0))
     return EXIT_VIOLATION if ctx.violations else EXIT_OK
 
@@ -488,7 +493,7 @@ def main(pid, run):
         ctx.notes.append("INCONCLUSIVE: %s" % str(ex)[:500])
         try:
             ctx.cov["evaluations"] = max(ctx.cov["evaluations"], 1)
-            finish(ctx)
+            finish(ctx, inconclusive=True)
         except Exception:
             pass
         rc = EXIT_INCONCLUSIVE
